@@ -86,7 +86,8 @@ def path(eng, acc, task):
         fails = verify(nu, nv, edges, matching, ucov, vcov)
     except _Timeout:
         fails = ['did not terminate within 20 s']
-    except (AssertionError, IndexError, KeyError, ValueError, TypeError, RecursionError) as e:
+    except (Exception, RecursionError) as e:
+        reraise_internal(e)
         fails = [f'raised {type(e).__name__}: {e}']
     finally:
         signal.setitimer(signal.ITIMER_REAL, 0)
